@@ -89,7 +89,7 @@ def explore(chk):
     hexword = re.compile(r"^[0-9a-f]{4}$")
     for (abstract, caps_text, laid, times, op, tight) in jobs:
         cs = capio.build_set(abstract)
-        doc = pycaption.SCCWriter().write(cs)
+        doc = core.POOL.get(pycaption.SCCWriter).write(cs)
         case = {"captions": [{"start": s, "end": e, "lines": ls} for (s, e), ls in zip(times, caps_text)], "output": doc[:3000]}
         nontriv = any(len(l) > 32 or "-" in l for ls in caps_text for l in ls)
         chk.case(key=json.dumps(case["captions"]), nontrivial=nontriv, sample=case if chk.count_get("n") in (0, 7) else None)
@@ -193,7 +193,7 @@ def explore(chk):
                                      "a caption does not become visible within three frames of its start time")
         # ---- re-read
         try:
-            rs = pycaption.SCCReader().read(doc)
+            rs = core.POOL.get(pycaption.SCCReader).read(doc)
             rcaps = rs.get_captions("en-US")
             got = [c.get_text().split() for c in rcaps]
             want = [[w for l in ls for w in l.split()] for ls in caps_text]
